@@ -46,6 +46,10 @@ type Program struct {
 	LoadErrs []string
 
 	markers map[string][]marker // file -> markers
+
+	// index/slice expressions whose bounds were proven by the case-partitioned evaluation of
+	// the string-cutting helpers (strcut.go)
+	ProvenSafe map[ast.Node]bool
 }
 
 type marker struct {
